@@ -152,7 +152,33 @@ func kindsCovered(fns []*ssa.Function, kinds []kindInfo) map[string]ssa.Instruct
 // ranging over it with the element handed on.
 func childListForwarded(fns []*ssa.Function, k kindInfo) (bool, ssa.Instruction) {
 	var reads []ssa.Value
+	// selector helpers: functions of the same package called from the traverser
+	// (two levels) that may read the child list and return it
+	scope := append([]*ssa.Function{}, fns...)
+	inScope := map[*ssa.Function]bool{}
 	for _, f := range fns {
+		inScope[f] = true
+	}
+	for level := 0; level < 2; level++ {
+		for _, f := range append([]*ssa.Function{}, scope...) {
+			eachCall(f, func(cl ssa.CallInstruction) {
+				h := cl.Common().StaticCallee()
+				if h == nil || inScope[h] || !isRepoFn(h) || len(h.Blocks) == 0 || len(fns) == 0 || fnPkgPath(h) != fnPkgPath(fns[0]) {
+					return
+				}
+				if h.Signature.Results().Len() != 1 || !isTreeType(h.Signature.Results().At(0).Type()) {
+					return
+				}
+				inScope[h] = true
+				scope = append(scope, h)
+			})
+		}
+	}
+	helper := map[*ssa.Function]bool{}
+	for _, f := range scope[len(fns):] {
+		helper[f] = true
+	}
+	for _, f := range scope {
 		eachInstr(f, func(_ *ssa.BasicBlock, i ssa.Instruction) {
 			switch x := i.(type) {
 			case *ssa.FieldAddr:
@@ -210,6 +236,9 @@ func childListForwarded(fns []*ssa.Function, k kindInfo) (bool, ssa.Instruction)
 					}
 					if inner != nil && !inLoopOf(inner, x.Block()) && !accumulated(v) {
 						continue // consumed after the loop: only the last element arrives
+					}
+					if helper[x.Parent()] {
+						continue // inside a selector helper only the returned value counts
 					}
 					return x
 				case *ssa.Store:
@@ -275,6 +304,21 @@ func childListForwarded(fns []*ssa.Function, k kindInfo) (bool, ssa.Instruction)
 				case *ssa.MakeInterface:
 					if at := fwd(x, d+1); at != nil {
 						return at
+					}
+				case *ssa.Return:
+					// returned by a selector helper: continue at its call sites
+					if h := x.Parent(); helper[h] {
+						for _, f := range scope {
+							var at ssa.Instruction
+							eachInstr(f, func(_ *ssa.BasicBlock, j ssa.Instruction) {
+								if cv, ok := j.(*ssa.Call); ok && at == nil && cv.Call.StaticCallee() == h {
+									at = fwd(cv, d+1)
+								}
+							})
+							if at != nil {
+								return at
+							}
+						}
 					}
 				}
 			}
